@@ -111,6 +111,7 @@ impl Tap {
             }
         }
         set.insert(" ".to_string());
+        set.insert(String::new());
         for s in singles {
             set.insert(s);
         }
